@@ -21,7 +21,7 @@ RULE = ("0-5 parameters, values in {int, float, None, str (incl. multi-character
         "; also: equal-valued values of different type / sign (1, 1.0, True, 0.0, -0.0), str-subclass strings, agent classes / objects as single values, the constructor dict checked for aliasing, collections whose elements are unhashable (lists, dicts, rows of a 2-D array), one collection object declared under two names, 9-13 parameters of which 2-4 are collections")
 COMPONENTS = {"real": ["ECAgent.Batching.ParameterList.__init__ / add_parameter / remove_parameter / build"],
               "stub": ["none - the reference is an independent nested-loop product"]}
-PROBES = ["empty_collection", "no_parameters", "repeated_values", "string_value", "rebuild_after_mutation", "ndarray_value",
+PROBES = ["collection_of_a_list_or_tuple_subclass", "empty_collection", "no_parameters", "repeated_values", "string_value", "rebuild_after_mutation", "ndarray_value",
           "range_value", "constructor_dict", "reject_nonstr", "reject_duplicate", "reject_unknown", "constructor_rejected",
           "single_value_is_agent_class_or_object", "string_value_of_a_str_subclass", "values_with_unhashable_elements", "one_object_declared_under_two_names", "nine_or_more_parameters"]
 TECHNIQUE = "deterministic simulation: seeded declare/remove/build histories with injected rejected declarations and caller-side mutation vs an independent nested-loop product"
@@ -56,12 +56,28 @@ def gen_val(rng):
     if r >= 0.87 and rng.random() < 0.3:
         return {"k": "ndarray2d", "v": [[rng.randint(0, 4) for _ in range(2)] for _ in range(n)]}
     if r < 0.6:
-        return {"k": "list", "v": elems}
+        return {"k": "listsub" if rng.random() < 0.1 else "list", "v": elems}
     if r < 0.75:
-        return {"k": "tuple", "v": elems}
+        return {"k": "ntuple" if rng.random() < 0.25 else "tuple", "v": elems}
     if r < 0.87:
         return {"k": "range", "v": n}
     return {"k": "ndarray", "v": [rng.randint(0, 4) for _ in range(n)]}
+
+
+class Levels(list):
+    """A list type of the user's own: a collection of values like any list."""
+
+
+_NT = {}
+
+
+def _ntuple(vals):
+    """A tuple with named fields (collections.namedtuple): a tuple like any other - a collection of its elements."""
+    import collections
+    n = len(vals)
+    if n not in _NT:
+        _NT[n] = collections.namedtuple(f"Levels{n}", [f"f{i}" for i in range(n)])
+    return _NT[n](*vals)
 
 
 class Label(str):
@@ -92,6 +108,10 @@ def decode(spec):
     if k in ("list", "tuple"):
         vals = [_el(v) for v in spec["v"]]
         return vals if k == "list" else tuple(vals)
+    if k == "listsub":
+        return Levels(_el(v) for v in spec["v"])
+    if k == "ntuple":
+        return _ntuple([_el(v) for v in spec["v"]])
     if k in ("int", "float", "str"):
         return spec["v"]
     if k == "none":
@@ -276,6 +296,8 @@ def execute(sc, ctx):
                 ctx.probe("values_with_unhashable_elements")
             if s["k"] == "range":
                 ctx.probe("range_value")
+            if s["k"] in ("ntuple", "listsub"):
+                ctx.probe("collection_of_a_list_or_tuple_subclass")
             if s["k"] == "agentclass":
                 ctx.probe("single_value_is_agent_class_or_object")
             if s["k"] == "strsub":
